@@ -167,16 +167,22 @@ func (l *Ledger) ACLOk(cl *mqtt.Client, topic string, write bool) (n int, ok boo
 	// of iterating through global rules.
 	if l.Users != nil {
 		if u, ok := l.Users[string(cl.Properties.Username)]; ok && len(u.ACL) > 0 {
+			// The decision must not depend on map iteration order: the access is granted
+			// if any matching filter grants it, and refused if filters match but none grants it.
+			var matched bool
 			for filter, access := range u.ACL {
 				if filter.FilterMatches(topic) {
+					matched = true
 					if !write && (access == ReadOnly || access == ReadWrite) {
 						return n, true
 					} else if write && (access == WriteOnly || access == ReadWrite) {
 						return n, true
-					} else {
-						return n, false
 					}
 				}
+			}
+
+			if matched {
+				return n, false
 			}
 		}
 	}
